@@ -598,4 +598,14 @@ def croutine_sexp(cr) -> str:
     res = " ".join(f"({r.name} {r.type.value} {ex(r.value)})" for r in cr.resources.values())
     conns = " ".join(f"({ep(s)} {ep(t)})" for s, t in cr.connections.items())
     ch = " ".join(croutine_sexp(c) for c in cr.children.values())
-    return f"(croutine {cr.name} {cr.type or '_'} ({' '.join(cr.input_params)}) ({ports}) ({res}) ({conns}) _ () ({ch}))"
+    rep = "_"
+    if cr.repetition is not None:
+        sq = cr.repetition.sequence
+        opt = lambda v: "_" if v is None else ex(v)  # noqa: E731
+        body = {"constant": lambda: f"(constant {ex(sq.multiplier)})",
+                "arithmetic": lambda: f"(arithmetic {ex(sq.initial_term)} {ex(sq.difference)})",
+                "geometric": lambda: f"(geometric {ex(sq.ratio)})",
+                "closed_form": lambda: f"(closed_form {opt(sq.sum)} {opt(sq.prod)} {ex(sq.num_terms_symbol)})",
+                "custom": lambda: f"(custom {ex(sq.term_expression)} {ex(sq.iterator_symbol)})"}[sq.type]()
+        rep = f"(rep {ex(cr.repetition.count)} {body})"
+    return f"(croutine {cr.name} {cr.type or '_'} ({' '.join(cr.input_params)}) ({ports}) ({res}) ({conns}) {rep} () ({ch}))"
